@@ -21,6 +21,15 @@
      "dn"   ..%00         NUL next to "..": a literal name, NOT the parent
      "xff"  %ff           not UTF-8: unquote() yields U+FFFD, a literal name
      "long" aaa...a (300) longer than NAME_MAX: stat() fails with ENAMETOOLONG
+     "ap"   %2F<abs>      an encoded slash followed by the ABSOLUTE path <abs> of the
+                          root's parent directory G/p (real slashes inside): one
+                          level of decoding gives "/<abs>", i.e. an empty segment
+                          and the components of <abs> as names below the root -
+                          they exist nowhere there.  (os.path.join(docroot, "/x")
+                          is "/x": a dispatcher that joins after decoding leaves
+                          the root.)
+     "apf"  the same with every slash of <abs> written %2f
+     "ap5"  %5C<abs>      backslash instead: a literal name on POSIX
 
    Abstract file system (positions are name sequences below the directory G
    that the driver creates; `above` counts levels above G):
@@ -48,7 +57,8 @@
 EXTENDS Integers, Sequences, FiniteSets
 
 BaseTokens   == {"dd", "d", "e", "dir", "file", "miss", "e1", "e2", "es", "bs", "sib", "sec"}
-ExoticTokens == {"n0", "fn", "nf", "dn", "xff", "long"}
+ExoticTokens == {"n0", "fn", "nf", "dn", "xff", "long", "ap", "apf", "ap5"}
+AbsTokens    == {"ap", "apf"}
 Tokens == BaseTokens \cup ExoticTokens
 
 (* literal names that carry a NUL after decoding *)
@@ -74,6 +84,8 @@ Decode1(t) ==
     [] t = "dn"   -> <<"lit_.._nul">>
     [] t = "xff"  -> <<"lit_fffd">>
     [] t = "long" -> <<"lit_long">>
+    [] t \in {"ap", "apf"} -> <<"", "lit_a1", "lit_a2", "lit_a3", "lit_a4", "lit_a5">>
+    [] t = "ap5"  -> <<"lit_bs_a1", "lit_a2", "lit_a3", "lit_a4", "lit_a5">>
     [] OTHER      -> <<"lit_unknown">>
 
 RECURSIVE Segs(_)
